@@ -290,6 +290,14 @@ def frame_oracle(verb, lb, done, pre_gs):
         head = "".join(pre_gs[:cur])
         if not post.startswith(head):
             return "r changed text before the cursor"
+        if kind == "ReplaceCharInplace":
+            # `[n]r<c>` replaces exactly n graphemes of the cursor's line, or does nothing: it never inserts and never
+            # touches a terminator
+            if post == pre:
+                return None
+            if cur + n <= len(pre_gs) and "\n" not in pre_gs[cur:cur + n] and post == head + verb[1] * n + "".join(pre_gs[cur + n:]):
+                return None
+            return "r did not replace exactly the %d grapheme(s) under the cursor (text grew, shrank or a terminator was touched)" % n
         for m in range(0, n + 1):          # m graphemes replaced, n-m pushed (newline / end)
             for ins in range(0, n + 1):
                 cand_tail = "".join(pre_gs[cur + m:])
